@@ -59,3 +59,24 @@ package storer
 //gvc:  requires two: len(iters) == 2
 //gvc:  ensures concat: result != nil && forall(k, -0x7fffffffffffffff, 0x7fffffffffffffff, result.#count[k] == iters[0].#count[k] + iters[1].#count[k])
 //gvc:end
+
+// Storage interface contracts used by the garbage-collection walker (C22);
+// trusted: the storages are not verified against them here.
+
+// Index: every entry is non-nil, and an entry that is not a gitlink names a
+// blob, which refers to no other object.
+//gvc:func IndexStorer.Index
+//gvc:  trusted
+//gvc:  params s
+//gvc:  results idx err
+//gvc:  ensures wf: err == nil ==> idx != nil && forall(i, 0, len(idx.Entries), idx.Entries[i] != nil && (idx.Entries[i].Mode != 0o160000 ==> forall(b, !spec_child(keyid(idx.Entries[i].Hash), b))))
+//gvc:end
+
+// EncodedObjectSize reports ErrObjectNotFound exactly for objects that are
+// not stored.
+//gvc:func EncodedObjectStorer.EncodedObjectSize
+//gvc:  trusted
+//gvc:  params s h
+//gvc:  results n err
+//gvc:  ensures absent: is(err, plumbing.ErrObjectNotFound) == spec_absent(keyid(h))
+//gvc:end
